@@ -82,6 +82,25 @@ func (w *World) now() time.Time { return time.Now() }
 
 func (w *World) stat(k string, n int64) { w.Stats[k] += n }
 
+func (w *World) opn() int { return len(w.Ops) }
+
+// touchTopic notes a deliberate state change on subscription s.
+func (w *World) touchTopic(s *Sub) {
+	if s != nil && s.Topic != nil {
+		s.Topic.Mut = w.opn()
+		s.Topic.MutBy = s
+	}
+}
+
+// siblingBlame: a delivery went missing (or appeared) on d.Sub although the
+// only deliberate changes since the model last confirmed it were on a sibling.
+func (w *World) siblingBlame(d *Del, sig, msg string) {
+	t := d.Sub.Topic
+	if t != nil && t.MutBy != nil && t.MutBy != d.Sub && t.Mut >= d.SeenAt {
+		w.violate("C02", "sibling-interference:"+sig, "after an operation on sibling %s (op %d): %s", t.MutBy.Name, t.Mut, msg)
+	}
+}
+
 func (w *World) rec(op, args, res string) {
 	w.Kinds[op]++
 	if len(w.Ops) < 3000 {
@@ -286,6 +305,7 @@ func (w *World) DeleteSub(name string) {
 		return
 	}
 	s.Live = false
+	w.touchTopic(s)
 	delete(w.Subs, name)
 }
 
@@ -394,7 +414,7 @@ func filterMatch(f *ref.Node, attrs map[string]string) ref.TV {
 }
 
 func (w *World) newDel(s *Sub, m *Msg, at Iv, fwd bool) *Del {
-	d := &Del{Sub: s, Msg: m, State: Out, Lease: at.Add(s.Cfg.Delay), Exp: at.Add(s.Cfg.Retention), Arr: at, ArrSeq: w.arrSeq, Forwarded: fwd, LeaseWhy: "arrival"}
+	d := &Del{Sub: s, Msg: m, State: Out, Lease: at.Add(s.Cfg.Delay), Exp: at.Add(s.Cfg.Retention), Arr: at, ArrSeq: w.arrSeq, Forwarded: fwd, LeaseWhy: "arrival", SeenAt: w.opn()}
 	s.Dels = append(s.Dels, d)
 	s.ByMsg[m.ID] = append(s.ByMsg[m.ID], d)
 	return d
@@ -675,6 +695,9 @@ func (w *World) checkDeliveries(s *Sub, via string, rms []*pubsubpb.ReceivedMess
 				sig += ":direct-predecessor-" + directPred(d, hi)
 			}
 			w.violate(p, sig, "%s on %s#%d at %s delivered %s although the model says: %s%s%s", via, s.Name, s.Gen, ts(lo), d, reason, sameKey(d), w.rowDiag(d))
+			if reason != "blocked-by-predecessor" {
+				w.siblingBlame(d, sig, fmt.Sprintf("%s on %s delivered %s (%s)", via, s.Name, d, reason))
+			}
 		}
 		if !d.Wild && !s.Decoy {
 			if int(rm.DeliveryAttempt) != d.Attempts+1 {
@@ -706,6 +729,7 @@ func (w *World) checkDeliveries(s *Sub, via string, rms []*pubsubpb.ReceivedMess
 		d.Lease = Iv{lo.Add(nom - time.Millisecond), hi.Add(nom + ref.JitterBound + time.Millisecond)}
 		d.LeaseWhy = "delivery"
 		d.LastDeliv = Iv{lo, hi}
+		d.SeenAt = w.opn()
 		d.Revived = false
 		d.Lost = false
 		w.stat("deliveries_observed", 1)
@@ -744,6 +768,7 @@ func (w *World) checkDeliveries(s *Sub, via string, rms []*pubsubpb.ReceivedMess
 			if !got[d] {
 				p, sig := propForMiss(d)
 				w.violate(p, sig, "%s on %s#%d at %s (max %d, returned %d) did not offer %s which must be deliverable%s%s", via, s.Name, s.Gen, ts(lo), capacity, len(rms), d, sameKey(d), w.rowDiag(d)+w.dueDiag(s, lo))
+				w.siblingBlame(d, sig, fmt.Sprintf("%s on %s did not offer %s", via, s.Name, d))
 				d.Lost = true
 			}
 		}
@@ -839,6 +864,7 @@ func (w *World) Ack(subName string, ids []string) {
 		if d.State == Out {
 			d.State = Acked
 			d.DoneAt = Iv{lo, hi}
+			w.touchTopic(d.Sub)
 			w.stat("acks_effective", 1)
 		} else {
 			w.stat("ack_stale_ids", 1)
@@ -861,6 +887,7 @@ func (w *World) ModAck(subName string, ids []string, secs int32) {
 			w.stat("modack_stale_ids", 1)
 			continue
 		}
+		w.touchTopic(d.Sub)
 		if secs > 0 {
 			dd := time.Duration(secs) * time.Second
 			d.Lease = Iv{maxT(d.Lease.Lo, lo.Add(dd)), maxT(d.Lease.Hi, hi.Add(dd))}
@@ -870,6 +897,58 @@ func (w *World) ModAck(subName string, ids []string, secs int32) {
 			d.LeaseWhy = "nack"
 			w.stat("modack_zero", 1)
 		}
+	}
+}
+
+// Nack runs the NackDeliveries action the way the message streamer does for a
+// negative acknowledgement (HTTP push failures take this path): outstanding
+// deliveries are rescheduled by the backoff, or dead-lettered at once when they
+// have used up their attempts.
+func (w *World) Nack(ids []string) {
+	w.slot()
+	var uu []uuid.UUID
+	for _, id := range ids {
+		if u, err := uuid.Parse(id); err == nil {
+			uu = append(uu, u)
+		}
+	}
+	lo := w.now()
+	a := actions.NewNackDeliveries(uu...)
+	err := w.E.Client.DoCtxTx(w.Ctx, nil, a.Execute)
+	hi := w.now()
+	w.rec("nack", fmt.Sprintf("n=%d", len(ids)), fmt.Sprint(err))
+	if err != nil {
+		w.violate("C04", "nack-error", "NackDeliveries failed: %v", err)
+		return
+	}
+	for _, id := range ids {
+		d := w.ByAck[id]
+		if d == nil || d.State != Out || d.Wild || d.Sub.Wild {
+			w.stat("nack_stale_ids", 1)
+			continue
+		}
+		if d.expiredCertain(lo) {
+			continue
+		}
+		if d.expiredPossible(hi) {
+			d.Wild = true
+			continue
+		}
+		w.touchTopic(d.Sub)
+		if d.dlEligible() {
+			if d.Sub.dlVoid() {
+				d.Wild = true
+				w.stat("wild_deadletter_topic_deleted", 1)
+				continue
+			}
+			w.forward(d, Iv{lo, hi})
+			w.stat("nack_deadlettered", 1)
+			continue
+		}
+		nom := d.Sub.backoff(d.Attempts)
+		d.Lease = Iv{lo.Add(nom - time.Millisecond), hi.Add(nom + ref.JitterBound + time.Millisecond)}
+		d.LeaseWhy = "nack-backoff"
+		w.stat("nacks_effective", 1)
 	}
 }
 
@@ -940,6 +1019,7 @@ func (w *World) revive(d *Del, at Iv) {
 	d.Exp = at.Add(d.Sub.Cfg.Retention)
 	d.Revived = true
 	d.Lost = false
+	d.SeenAt = w.opn()
 	w.stat("seek_revived", 1)
 }
 
@@ -966,6 +1046,7 @@ func (w *World) SeekTime(name string, t time.Time) {
 		return
 	}
 	at := Iv{lo, hi}
+	w.touchTopic(s)
 	for _, d := range s.Dels {
 		if d.Wild {
 			continue
@@ -1083,6 +1164,7 @@ func (w *World) SeekSnapshot(name, snap string) {
 		return
 	}
 	at := Iv{lo, hi}
+	w.touchTopic(s)
 	if sn.Sub != s {
 		// snapshot of another subscription: outside the modelled domain
 		for _, d := range s.Dels {
